@@ -1,6 +1,7 @@
 import Pmn.Model.Grid
 import Pmn.Model.Fmt
 import Driver.Proto
+import Driver.OpsTopo
 open Driver
 
 def opGrid (args : List String) : String :=
@@ -37,6 +38,7 @@ def dispatch (line : String) : String :=
   match (line.trimAscii.toString.splitOn " ").filter (· ≠ "") with
   | "grid" :: r => opGrid r
   | "fmt" :: r => opFmt r
+  | "topo" :: r => opTopo r
   | _ => "bad-op"
 
 partial def loop (h : IO.FS.Stream) (out : IO.FS.Stream) : IO Unit := do
